@@ -3,6 +3,7 @@
 from __future__ import annotations
 
 import os
+import sys
 
 from btcsim.core.runner import Plan, run_check
 
@@ -31,7 +32,12 @@ def _collect() -> dict[str, dict[str, object]]:
         except ModuleNotFoundError as e:
             if e.name == mod:
                 continue  # world not built
-            raise
+            print(f"note: world module {mod} does not import: {e!r}", file=sys.stderr)
+            continue
+        except Exception as e:  # noqa: BLE001
+            # one world that does not import (an edited tree, a half-built world) must not take the others down
+            print(f"note: world module {mod} does not import: {e!r}", file=sys.stderr)
+            continue
         for pid, c in getattr(m, "CHECKS", {}).items():
             if pid in out:
                 raise RuntimeError(f"{pid} defined by two worlds")
